@@ -47,8 +47,8 @@ MENU = [
     (r'\begin{frac}x\end{frac}\sqrtx \begin{sqrt}y\end{sqrt}', 'D', False),  # names known as macros, used as environments
     (r'$\me^{a}_b{c}$ \me_d{e}', 'A', False),                               # embellishment arguments
     (r'\me{a}\me^b{c}', 'A', False),
-    (r'{\me{a}^ }', 'A', True),                                              # an embellishment marker with nothing to read after it
-    (r'{\me{a}_ %c' + '\n' + r'}', 'A', False),
+    (r'{\me^ }x', 'A', True),                                              # an embellishment marker with nothing to read after it
+    (r'{\me_ %c' + '\n' + r'}x', 'A', False),
     # no explicit context: every call builds a new default database from the module-level specification tables
     (r'\begin{theorem}[Main]x\end{theorem}\begin{proof}[p]y\end{proof}\begin{lemma}z\end{lemma}', 'N', False),
     (r'\textbf{a}\sqrt[3]{x}\begin{enumerate}[a]\item[b] c\end{enumerate}\begin{align}x\end{align}', 'N', False),
